@@ -65,6 +65,8 @@ class Theory:
         self.side_pc = []   # parallel to side: path condition (tuple) under which the operation was executed
         self.side_kind = []  # parallel: (op, 'sym'|'const', 'sym'|'const')
         self.declined = False
+        self.nfrac_of = {}
+        self.nfd_vars = {}
         self.cur_pc = ()
         self.n = 0
         self.memo = {}
@@ -105,7 +107,23 @@ class Theory:
         return self.const(float(i) if self.backend == "f64" else F(i))
 
     def const_decimal(self, coeff, nfrac):
-        return self.const(F(coeff, 10 ** nfrac))
+        a = self.const(F(coeff, 10 ** nfrac))
+        self.nfrac_of.setdefault(a.term.get_id(), nfrac)
+        return a
+
+    def nfd(self, a):
+        """number of fractional digits of a decimal's representation: known for `Decimal::new_raw` constants, otherwise any
+        value in 0..18 (a fresh integer per term; an over-approximation of fpdec's bookkeeping)"""
+        if self.backend != "dec":
+            raise Unsupported("n_frac_digits outside the decimal configuration")
+        k = a.term.get_id()
+        if k in self.nfrac_of:
+            return self.nfrac_of[k]
+        if k not in self.nfd_vars:
+            v = z3.Int("nfd!%d" % len(self.nfd_vars))
+            self.cons.append(z3.And(v >= 0, v <= 18))
+            self.nfd_vars[k] = v
+        return self.nfd_vars[k]
 
     def is_one(self, a):
         return a.exact is not None and a.exact == 1
@@ -198,6 +216,23 @@ class TRed(TReal):
         self.side_exact = []
         self._seen_side = set()
         self.fresh_exact = {}
+        self.nfrac_of = {}
+        self.nfd_vars = {}
+
+    def _unused_const_decimal(self, coeff, nfrac):
+        return Theory.const_decimal(self, coeff, nfrac)
+
+    def _unused_nfd(self, a):
+        """number of fractional digits of the representation: known for `Decimal::new_raw` constants, otherwise any value in
+        0..18 (a fresh integer per term; an over-approximation of fpdec's bookkeeping)"""
+        k = a.term.get_id()
+        if k in self.nfrac_of:
+            return self.nfrac_of[k]
+        if k not in self.nfd_vars:
+            v = z3.Int("nfd!%d" % len(self.nfd_vars))
+            self.cons.append(z3.And(v >= 0, v <= 18))
+            self.nfd_vars[k] = v
+        return self.nfd_vars[k]
 
     def _side(self, desc, f, kind, exact=None):
         k = (desc, f.get_id(), tuple(c.get_id() if hasattr(c, "get_id") else c for c in self.cur_pc))
